@@ -126,7 +126,43 @@ SOUP = ["a", "b", " ", " ", "\n", "\n", ":", "-", "?", "[", "]", "{", "}", ",", 
         "%YAML 1.2\n", "\r\n", "\r", "\0", "\U0001D11E", "? ", "\n- ", "\n  - ", "k: v\n", "[a, b]", "{a: b}",
         "|2\n", ">+\n", "   ", "\n\n", "# c\n", "!<x>", "!e!t", "%TAG !e! x\n", "!<%41>", "!a%C3%A9",
         "\\u00e9", "\\U0001D11E", "''", "\\\n", "                   ", "\ufeff", "&a ", "*a ", "? a\n: b\n",
-        "- - a\n", "k:\n  - v\n", "\"\\\n", "'\n'", "|+\n\n", "\n...\n", "\n--- ", "%FOO bar\n"]
+        "- - a\n", "k:\n  - v\n", "\"\\\n", "'\n'", "|+\n\n", "\n...\n", "\n--- ", "%FOO bar\n",
+        " # é\U0001D11E\n", "\"q\" # \U0001F600 x\n", "| # \U0001D11E\n", "[ # é\n", ", # \U0001D11E\n", "- # \U0001F600\n", ": # 中\n", "... # \U0001D11E\n",
+        "'s' #\U0001D11E\n", "] # é\U0001F600\n"]
+
+
+def alias_docs(rng, n):
+    """documents rich in anchors and aliases: self-references inside an open node, reuse after
+    completion, re-definition of an anchor name, aliases as keys, across 1-2 documents"""
+    out = []
+    for _ in range(n):
+        names = ['a', 'b']
+
+        def node(d):
+            x = rng.below(10)
+            pre = ('&' + rng.choice(names) + ' ') if rng.chance(2, 5) else ''
+            if d <= 0 or x < 3:
+                if rng.chance(1, 2):
+                    return '*' + rng.choice(names)
+                return pre + rng.choice(['x', '1', '~', '"s"', 'true'])
+            if x < 7:
+                return pre + '[' + ', '.join(node(d - 1) for _ in range(rng.randint(0, 3))) + ']'
+            items = []
+            for _ in range(rng.randint(0, 3)):
+                k = rng.choice(['k', 'j', '1', '*a ', '*b ', '? [x] ', '"q"', '&a kk', '&b 2'])
+                items.append(f'{k}: {node(d - 1)}')
+            return pre + '{' + ', '.join(items) + '}'
+        docs = []
+        for _ in range(rng.choice([1, 1, 2])):
+            shape = rng.below(3)
+            if shape == 0:
+                docs.append('\n'.join('- ' + node(rng.randint(0, 3)) for _ in range(rng.randint(1, 4))) + '\n')
+            elif shape == 1:
+                docs.append('\n'.join(f'k{i}: ' + node(rng.randint(0, 3)) for i in range(rng.randint(1, 4))) + '\n')
+            else:
+                docs.append(node(rng.randint(1, 3)) + '\n')
+        out.append('--- \n'.join(docs) if len(docs) > 1 and rng.chance(1, 2) else '...\n'.join(docs))
+    return out
 
 
 def exhaustive(alpha, maxlen):
@@ -146,7 +182,8 @@ def soups(rng, n, maxfrag=12, vocab=SOUP):
 LINE_FRAGS = ["a", "k: v", "k:", "- a", "-", "- k: v", "? a", ": b", "[a, b]", "{a: b}", "[", "]", "{", "}", "a,",
               "\"q\"", "'s'", "\"q", "|", ">", "|-", ">2", "&x a", "*x", "!t a", "!!int 1", "# c", "---", "...",
               "--- a", "text more", "k: [a,", "b]", "k: {a:", "b}", "\ttab", "a:\tb", "é: ü", "%YAML 1.2",
-              "%TAG !e! tag:e,", "!e!x y", "? - a", "- ? a", "k: |", "k: >-", "- |", "a # c", "a: 'b", "c'", ""]
+              "%TAG !e! tag:e,", "!e!x y", "? - a", "- ? a", "k: |", "k: >-", "- |", "a # c", "a: 'b", "c'", "",
+              "\"q\" # \U0001D11E", "k: | # \U0001F600é", "- [a, # \U0001D11E", "'s': v # 中\U0001D11E", "... # \U0001F600", "- # \U0001D11E c", "%YAML 1.2 # \U0001D11E"]
 
 
 def line_soups(rng, n, maxlines=8):
@@ -176,6 +213,15 @@ def boundary_inputs():
         out.append('- >\n' + ' ' * ind + 'x\n\n' + ' ' * (ind + 2) + 'y\n' + ' ' * ind + 'z\n')
         out.append('a' * ind + ' b' * 3 + '\n')
         out.append(' ' * ind + 'a: b\n')
+    # deeply indented block scalars (the chunked path of skip_block_scalar_indent: indent >= bufmaxlen − 2 for
+    # capacities 8, 16, 32, 64, 128) crossed with blank / short / over-long lines of every critical width
+    for I in list(range(5, 11)) + list(range(13, 19)) + list(range(29, 35)) + list(range(61, 67)) + list(range(125, 131)):
+        widths = sorted({0, 1, I - 2, I - 1, I, I + 1, I + 2} | {w for w in (6, 7, 8, 14, 15, 16, 17, 30, 31, 32, 62, 63, 64, 126, 127, 128) if w <= I + 2})
+        for w in widths:
+            for hdr in ('key: |\n', '- >\n', 'k: |+\n'):
+                out.append(hdr + ' ' * I + 'a\n' + ' ' * w + '\n' + ' ' * I + 'b\n')
+            out.append('key: |\n' + ' ' * I + 'a\n' + ' ' * w + '\n' + ' ' * w + '\n' + ' ' * I + 'é\n')
+            out.append('key: >\n' + ' ' * w + '\n' + ' ' * I + 'a\n' + ' ' * (I + 2) + 'b\n' + ' ' * w + 'c\n')
     for n in list(range(12, 20)) + list(range(124, 132)):     # plain-scalar chunks of bufmaxlen − 1
         out.append('x' * n + '\n')
         out.append('x' * n + ': y\n')
